@@ -49,7 +49,7 @@ READS = ("bin_entries", "bin_edges", "bin_centers", "num_bins", "bin_width", "mp
 def _read(what, obj, rng):
     # a SparselyBin holding far-apart (e.g. saturated +-inf) indexes materialises its whole dense range in
     # the array accessors: that is a resource question, not a state question - skip those reads
-    if hasattr(obj, "minBin") and hasattr(obj, "binWidth") and obj.bins and (max(obj.bins) - min(obj.bins)) > 5000:
+    if hasattr(obj, "minBin") and hasattr(obj, "binWidth") and obj.bins and (int(max(obj.bins)) - int(min(obj.bins))) > 5000:
         return
     a = getattr(obj, what)
     if callable(a):
